@@ -93,7 +93,7 @@ def main():
                 shutil.copy(demo_src, dst)
                 m = dict(meta)
                 m.update({'breaks_property': prop, 'needs_to_manifest': meta.get('needs', ''), 'confirmation': rec})
-                if tag.startswith('adv'):
+                if tag.startswith('adv') or tag.startswith('r2'):
                     # white-box red-team change: written to pass the check as it stood
                     m['red_team'] = True
                     m['missed_by_check_as_it_stood'] = True
